@@ -7,6 +7,9 @@ Every driver is created by its own init(transport) on a simulated transport (vf.
 under a real nfc.clf.ContactlessFrontend; target kinds are entered through the real clf.sense()/clf.listen().
 
 C13  one clf.exchange() per (driver x target kind x host command index k x status byte / host-link fault).
+     host-link faults are the named ones of the link type plus, uniformly for usb/tty/arygon/ccid, the response
+     transfer cut to every length 1..len-1 ("trunc"; frame links also the ACK cut to 1..5 octets, the CCID link
+     also a well formed CCID message whose pseudo-APDU is cut to 0..len-1 octets).
      oracle: the call returns bytes/bytearray (None only as a listening target) or raises an
      nfc.clf.CommunicationError subclass or IOError/OSError.  Finer clauses only where manual and driver
      documentation agree: status 01h of the RF exchange command as initiator -> TimeoutError; chip silent after
@@ -51,14 +54,17 @@ SUPPORT = {
 RULE_C13 = ("cell = (driver in pn531/pn532/pn533/rcs956/acr122/arygonA/arygonB/pn532rt[real transport.TTY over a simulated serial port]) x (target kind entered through the real "
             "sense/listen: T2T, T4A, T1T (RALL and CIU READ8), 106B, 212F, 424F, DEP initiator 106/424, listen tt2/tt4/tt3/DEP "
             "106/424 as far as supported) x (k = 1..n over every host command of the reference exchange) x (all 256 status "
-            "bytes where the command has a status field + every host-link fault of the link type); distinct by "
+            "bytes where the command has a status field + every host-link fault of the link type, including the response "
+            "frame / CCID message cut to every length 1..len-1, the ACK frame cut to 1..5 octets (frame links) and the "
+            "pseudo-APDU inside a well formed CCID message cut to 0..len-1 octets (ACR122)); distinct by "
             "(driver, kind, k, action); non-trivial if the scripted action was actually delivered by the simulator")
 RULE_C14 = ("command side: every command code of each chipset table x payload lengths (quick: 0..6, 250..270, max-2..max, "
             "random; thorough: every length) x random contents, frame validated and compared with the payload; response "
             "side: valid responses of many lengths x every single-bit flip, every truncation, extensions, sum-preserving "
             "adjacent byte pairs, random 1-4 byte substitutions, ACK mutations; CRC: all messages <= 2 bytes (3 thorough) + "
             "random, all single-bit corruptions, driver-side T2T/T1T CRC checks; distinct by the bytes of the case")
-REQUIRED_C13 = ["%s_c13_exchanges" % d for d in DRIVERS] + ["%s_c13_cells" % d for d in DRIVERS] + ["pn53x_sim_selftest_frames"]
+REQUIRED_C13 = (["%s_c13_exchanges" % d for d in DRIVERS] + ["%s_c13_cells" % d for d in DRIVERS] +
+                ["%s_c13_truncations_delivered" % d for d in DRIVERS] + ["pn53x_sim_selftest_frames"])
 REQUIRED_C14 = (["%s_frames_validated" % d for d in DRIVERS] + ["%s_responses_mutated" % d for d in DRIVERS] +
                 ["%s_t2t_crc_cases" % d for d in DRIVERS] + ["pn53x_crc_cases", "pn53x_crc_bitflips", "pn53x_sim_selftest_frames"])
 
@@ -182,6 +188,7 @@ class Cell(object):
         self.role, self.fkind, self.data, self.tmo = kind_info(kind, variant)
         self.rf_cmd_k = None
         self.first_read_k = None
+        self.rsplog = {}                  # k -> (octets of the regular response transfer, of its header)
         a = activate(driver, kind, R, prop)
         self.init_failed = a == "init-failed"
         self.ok = a is not None and not self.init_failed
@@ -222,7 +229,8 @@ class Cell(object):
         return ("badtype", type(r).__name__), None, r
 
 
-def actions_for(sim, cmd, link, tier, role, kind):
+def actions_for(sim, cmd, link, tier, role, kind, rsp=None):
+    """rsp = (octets of the regular response transfer of this host command, of its header) from the reference run"""
     from vf.sim.chipsets import pn53x as S
     acts = []
     if sim.has_status(cmd):
@@ -230,16 +238,21 @@ def actions_for(sim, cmd, link, tier, role, kind):
         acts += [["status", 0]]
     faults = S.FAULTS_CCID if link == "ccid" else S.FAULTS_FRAME
     acts += [["fault", f] for f in faults]
+    if rsp is not None:
+        acts += S.len_actions(link, rsp)
     if kind == "l-tt3":
         acts.append(["rfoff"])
     return acts
 
 
-def where_of(action):
+def where_of(action, link=None, rsp=None):
     if action[0] == "status":
         return "rf-status"
     if action[0] == "rfoff":
         return "rf-off"
+    if len(action) > 2:
+        from vf.sim.chipsets import pn53x as S
+        return S.cut_region(link, action[1], int(action[2]), rsp)
     return action[1]
 
 
@@ -249,7 +262,7 @@ def judge_c13(R, cell, k, action, cmd, out, exc, follow=False):
     drv = cell.driver
     name = S.NAMES.get(cmd, "%02X" % cmd) if cmd is not None else "?"
     case = {"family": "pn53x_family", "driver": drv, "kind": cell.kind, "variant": cell.variant, "k": k, "action": action, "follow": follow}
-    where = where_of(action) + ("+next-exchange" if follow else "")
+    where = where_of(action, cell.sim.link, cell.rsplog.get(k)) + ("+next-exchange" if follow else "")
     tag = out[0]
     if tag == "bound":
         R.inconc("%s/%s: host command bound hit at k=%d %r" % (drv, cell.kind, k, action))
@@ -371,6 +384,11 @@ def run_cell_c13(R, driver, kind, tier, rng, only=None, variant=0):
     rf = [i + 1 for i, c in enumerate(cmds) if c in S.RF_WAIT_CMDS]
     cell.rf_cmd_k = rf[-1] if rf else None
     cell.first_read_k = (cmds.index(0x06) + 1) if 0x06 in cmds else None
+    cell.rsplog = dict(sim.rsplog)
+    if sorted(cell.rsplog) != list(range(1, n + 1)):
+        R.inconc("%s/%s: the simulator did not log a regular response for every host command of the reference exchange" % (driver, kind))
+        return
+    R.max("%s_c13_response_octets" % driver, max(v[0] for v in cell.rsplog.values()))
     R.count("%s_c13_cells" % driver)
     R.seen("pn53x_c13_cells", "%s/%s/%s" % (driver, kind, vlabel))
     R.max("%s_host_commands_per_exchange" % driver, n)
@@ -382,7 +400,7 @@ def run_cell_c13(R, driver, kind, tier, rng, only=None, variant=0):
         ks = sorted(set(list(range(1, 8)) + [n - 2, n - 1, n] + rng.sample(range(8, n - 2), 3)))
     for k in ks:
         cmd = cmds[k - 1]
-        acts = actions_for(sim, cmd, link, tier, cell.role, kind)
+        acts = actions_for(sim, cmd, link, tier, cell.role, kind, cell.rsplog.get(k))
         if only is not None:
             if k != only[0]:
                 continue
@@ -398,8 +416,12 @@ def run_cell_c13(R, driver, kind, tier, rng, only=None, variant=0):
             if not delivered:
                 R.count("%s_c13_action_not_delivered" % driver)
                 continue
-            cls = "%s/%s/%s/%s" % (kind, S.NAMES.get(cmd, cmd), "status" if action[0] == "status" else where_of(action), ":".join(str(x) for x in out))
+            where = where_of(action, link, cell.rsplog.get(k))
+            cls = "%s/%s/%s/%s" % (kind, S.NAMES.get(cmd, cmd), "status" if action[0] == "status" else where, ":".join(str(x) for x in out))
             R.seen("%s_c13_outcomes" % driver, cls)
+            if len(action) > 2:
+                R.count("%s_c13_truncations_delivered" % driver)
+                R.count("pn53x_c13_%s_%s" % (where.replace(":", "_").replace("-", "_"), out[0]))
             R.count("pn53x_c13_outcome_" + out[0])
             case0 = {"family": "pn53x_family", "driver": driver, "kind": kind, "variant": variant, "k": k, "action": action, "follow": False}
             check_bad_writes(R, sim, driver, case0, "c13")
